@@ -28,3 +28,65 @@ def register(reg):
                      ('data = data.copy()', 'data = data')]
             + ([('data[mask] = 0.0', 'data[~mask] = 0.0')] if mspec else []),
         ))
+
+    # ---- centroid_sources "acts per source": the cutouts handed to the centroid function for one
+    # source are the data / mask / error under *that source's* box (slices_large), the footprint
+    # under slices_small, and a peak hint shifted into cutout coordinates
+    L0, L1 = 'slices_large[0].start', 'slices_large[1].start'
+    S0, S1 = 'slices_small[0].start', 'slices_small[1].start'
+    cbox = ('(0, slices_large[0].stop - slices_large[0].start), '
+            '(0, slices_large[1].stop - slices_large[1].start)')
+    pre = [f'0 <= {L0}', f'{L0} < slices_large[0].stop', 'slices_large[0].stop <= data.shape[0]',
+           f'0 <= {L1}', f'{L1} < slices_large[1].stop', 'slices_large[1].stop <= data.shape[1]',
+           f'0 <= {S0}', f'0 <= {S1}',
+           f'slices_small[0].stop - {S0} == slices_large[0].stop - {L0}',
+           f'slices_small[1].stop - {S1} == slices_large[1].stop - {L1}',
+           'slices_small[0].stop <= footprint.shape[0]',
+           'slices_small[1].stop <= footprint.shape[1]']
+    for tag, mspec, kwspec in (
+            ('mask+error+peak', ('arr', 2, 'bool'),
+             {'error': ('arr', 2, 'real'), 'xpeak': 'real', 'ypeak': 'real'}),
+            ('mask', ('arr', 2, 'bool'), {}),
+            ('nomask+error', None, {'error': ('arr', 2, 'real')})):
+        req = list(pre)
+        ens = [
+            ('data-cutout', 'data_cutout.shape == (slices_large[0].stop - slices_large[0].start, '
+                            'slices_large[1].stop - slices_large[1].start) and '
+                            f'forall(lambda j, i: data_cutout[j, i] == data[j + {L0}, i + {L1}], '
+                            f'{cbox})'),
+            ('mask-cutout', 'forall(lambda j, i: iff(mask_cutout[j, i], '
+                            + (f'mask[j + {L0}, i + {L1}] or ' if mspec else '')
+                            + f'not footprint[j + {S0}, i + {S1}]), {cbox})'),
+            ('mask-keyword', 'forall(lambda j, i: iff(centroid_kwargs["mask"][j, i], '
+                             f'mask_cutout[j, i]), {cbox})'),
+            ('caller-kwargs-untouched',
+             'len(func_kwargs) == %d and "mask" not in func_kwargs' % len(kwspec)),
+        ]
+        if mspec:
+            req += ['mask.shape == data.shape']
+        if 'error' in kwspec:
+            req += ['func_kwargs["error"].shape == data.shape']
+            ens.append(('error-cutout',
+                        'forall(lambda j, i: centroid_kwargs["error"][j, i] == '
+                        f'func_kwargs["error"][j + {L0}, i + {L1}], {cbox})'))
+        if 'xpeak' in kwspec:
+            ens.append(('peak-hint-in-cutout-coordinates',
+                        f'centroid_kwargs["xpeak"] == func_kwargs["xpeak"] - {L1} and '
+                        f'centroid_kwargs["ypeak"] == func_kwargs["ypeak"] - {L0}'))
+        reg.add(Contract(
+            target=C + 'centroid_sources', props=['C17', 'C03'], tag='cutouts-' + tag,
+            block=('data_cutout', 'centroid_kwargs'),
+            params={'data': ('arr', 2, 'real', 'nonfinite'), 'mask': mspec,
+                    'footprint': ('arr', 2, 'bool'), 'slices_large': 'slice2',
+                    'slices_small': 'slice2', 'func_kwargs': ('dict', kwspec)},
+            requires=req, ensures=ens,
+            mutants=[('data[slices_large]', 'data[slices_small]'),
+                     ('footprint_mask[slices_small]', 'footprint_mask[slices_large]')]
+            + ([('mask[slices_large]', 'mask[slices_small]'),
+                ('np.logical_or(mask[slices_large], footprint_mask)',
+                 'np.logical_and(mask[slices_large], footprint_mask)')] if mspec else [])
+            + ([('error[slices_large]', 'error[slices_small]')] if 'error' in kwspec else [])
+            + ([('xpeak - slices_large[1].start', 'xpeak - slices_large[0].start'),
+                ('ypeak - slices_large[0].start', 'ypeak + slices_large[0].start')]
+               if 'xpeak' in kwspec else []),
+        ))
